@@ -71,7 +71,7 @@ def run(tier):
                   {"op": "render_str", "src": "{{ s | slug }}", "auto": False}]
         jobs.append({"cfg": {"contrib": True}, "ctx": {"s": s}, "steps": steps})
     # JSON values
-    scal = [None, True, False, 0, -1, 2**63 - 1, -2**63, 2**64 - 1, 0.5, -2.25, 1e300, "", "a\"b\\c", "\n\t\x01", "é世\U0001F600", "</script>"]
+    scal = [None, True, False, 0, -1, 2**63 - 1, -2**63, 2**64 - 1, 2**64, -2**63 - 1, 2**127 - 1, -2**127, 2**128 - 1, 0.5, -2.25, 1e300, "", "a\"b\\c", "\n\t\x01", "é世\U0001F600", "</script>"]
     vals = list(scal) + [{-1: "x", 5: "y"}, {-2**63: 1, 2**70: [2], 0: None}, {True: 1, "a": {-7: "neg"}}, [], {}, [1, "a", None], {"a": 1, "b": [True, {"c": "d\""}]}, {"é": {"\"": [[], {}]}}, [[["x"]]], {"k": 0.5, "z": [1.5, -1]}]
     for _ in range(50 if tier == "quick" else 500):
         def gen(d):
@@ -82,8 +82,14 @@ def run(tier):
                 return [gen(d - 1) for _ in range(rnd.randint(0, 3))]
             return {"".join(rnd.choice(ALPHA) for _ in range(rnd.randint(0, 3))): gen(d - 1) for _ in range(rnd.randint(0, 3))}
         vals.append(gen(3))
-    jjobs = [{"cfg": {"contrib": True}, "ctx": {"v": typed(v)}, "steps": [{"op": "render_str", "src": "{{ v | json_encode }}", "auto": False},
-                                                                           {"op": "render_str", "src": "{{ v | json_encode(pretty=true) }}", "auto": False}]} for v in vals]
+    # every integer also in each narrower encoding that holds it (the serialiser has one arm per width)
+    ENC = [("$i64", -2**63, 2**63 - 1), ("$u64", 0, 2**64 - 1), ("$i128", -2**127, 2**127 - 1), ("$u128", 0, 2**128 - 1)]
+    extra = [(v, {e: str(v)}) for v in scal if isinstance(v, int) and not isinstance(v, bool) for e, lo, hi in ENC if lo <= v <= hi]
+    extra += [([v], [{e: str(v)}]) for v in (2**64, -2**63 - 1, 2**127 - 1, -2**127) for e, lo, hi in ENC if lo <= v <= hi]
+    jjobs = [{"cfg": {"contrib": True}, "ctx": {"v": tv}, "steps": [{"op": "render_str", "src": "{{ v | json_encode }}", "auto": False},
+                                                                           {"op": "render_str", "src": "{{ v | json_encode(pretty=true) }}", "auto": False}]}
+             for v, tv in [(v, typed(v)) for v in vals] + extra]
+    vals = vals + [v for v, _ in extra]
     res = vp.run_jobs(jobs, tag="c20", timeout=3000)
     jres = vp.run_jobs(jjobs, tag="c20-json", timeout=3000)
     work = vp.workdir("c20")
